@@ -62,6 +62,33 @@ func recC13(c *ctx) {
 		_, _ = rng.Read(out2)
 		emit(vt.Ev{"op": "read", "t": 2, "out": vt.B(out2)})
 	}
+	// ---- complete sweep of the LABEL length of every labelled operation (0..130: the framing is label || le32(len), whatever
+	// buffer an implementation assembles it in), with labels that differ only in their last byte giving different challenges
+	for L := 0; L <= 130; L++ {
+		sh := L % 16
+		emit := func(e vt.Ev) { e["cfg"] = c.cfg; e["hist"] = 200000 + L; c.w.EmitTo(sh, e) }
+		emit(vt.Ev{"op": "reset"})
+		la, le, lw := r.Bytes(L), r.Bytes((L*3)%131), r.Bytes((L*5)%131)
+		t := merlin.NewTranscript(string(la))
+		emit(vt.Ev{"op": "new", "id": 1, "label": vt.B(la)})
+		m := r.Bytes(L % 7)
+		t.AppendMessage(string(la), m)
+		emit(vt.Ev{"op": "append", "t": 1, "label": vt.B(la), "data": vt.B(m)})
+		rb := t.BuildRng()
+		emit(vt.Ev{"op": "buildrng", "t": 1, "id": 2})
+		out := make([]byte, 8)
+		t.ExtractBytes(out, string(le))
+		emit(vt.Ev{"op": "extract", "t": 1, "label": vt.B(le), "out": vt.B(out)})
+		w := r.Bytes(L % 5)
+		rb.RekeyWithWitnessBytes(string(lw), w)
+		emit(vt.Ev{"op": "rekey", "t": 2, "label": vt.B(lw), "data": vt.B(w)})
+		rnd := r.Bytes(32)
+		rng, _ := rb.Finalize(r.Entropy(rnd))
+		emit(vt.Ev{"op": "finalize", "t": 2, "rnd": vt.B(rnd)})
+		out2 := make([]byte, 8)
+		_, _ = rng.Read(out2)
+		emit(vt.Ev{"op": "read", "t": 2, "out": vt.B(out2)})
+	}
 	nh := c.budget(24, 600)
 	for h := 0; h < nh; h++ {
 		sh := h % 16
